@@ -759,7 +759,7 @@ def evidence(tier, seed, total):
     return {
         'level': LEVEL,
         'coverage': {
-            'rule': 'Enumeration (corruption faults): for one valid frame of each listed service, EVERY single-octet substitution from a value set '
+            'rule': '[additions: all services are mutated in both tiers; segmented conversations (answers of 8+ segments of 50 octets, scripts of right and odd segment-acks, duplicated requests, aborts, silence, up to four requesters incl. stations 5:05 and 6:05 behind a router host with the same invoke id); timed DeviceCommunicationControl episodes (disable for one minute, damaged DCC frames meanwhile, the device must talk again afterwards); the device application remembers I-Am announcements and valid requests come with and without segmented-response-accepted; in-run invariant: a transaction sits in the scheduler at most once and never after it finished] Enumeration (corruption faults): for one valid frame of each listed service, EVERY single-octet substitution from a value set '
                     '(0x00, 0xFF, bit flips 0x01/0x08/0x10/0x80, +1, opening/closing tag octets of contexts 0-3, length escapes 0x05/0xFE, 0x55), EVERY truncation '
                     'and EVERY one-octet insertion, each also with the BVLL length re-written so the inner layers are reached; every mutant runs in a fresh '
                     'world (complete BACnet/IP device on the in-memory datagram director) followed by two reference ReadProperty requests. Exploration: '
